@@ -32,7 +32,7 @@ theorem hasInfixL_append (pat : List Char) : ∀ (a r : List Char), hasInfixL pa
       have : pat = [] := by cases pat <;> simp_all
       simp [hasInfixL, this]
     | cons c cs =>
-      simp only [List.nil_append, h, hasInfixL, Bool.or_eq_true]
+      simp only [List.nil_append, hasInfixL, Bool.or_eq_true]
       left; rw [← h]; exact isPrefixL_append pat r
   | x :: a, r => by
     simp only [List.cons_append, hasInfixL, Bool.or_eq_true]
@@ -48,7 +48,7 @@ theorem hasMarker_mangledName (b : Name) (k : Nat) : hasMarker (mangledName b k)
 
 theorem takeWhile_append_stop {α : Type} (p : α → Bool) (x : α) (l2 : List α) :
     ∀ (l1 : List α), (∀ c ∈ l1, p c = true) → p x = false → (l1 ++ x :: l2).takeWhile p = l1
-  | [], _, hx => by simp [List.takeWhile, hx]
+  | [], _, hx => by simp [hx]
   | c :: l1, h, hx => by
     simp only [List.cons_append, List.takeWhile, h c (List.mem_cons_self ..)]
     rw [takeWhile_append_stop p x l2 l1 (fun d hd => h d (List.mem_cons_of_mem _ hd)) hx]
@@ -61,7 +61,7 @@ theorem stampOf_mangledName (b : Name) (k : Nat) : stampOf (mangledName b k) = s
       = (Nat.toDigits 10 k).reverse ++ '_' :: (b.toList ++ markerChars).reverse := by
     simp [List.reverse_append]
   rw [this, takeWhile_append_stop (· != '_') '_' _ _ (fun c hc => by
-      have : c ≠ '_' := fun e => Nat.underscore_not_in_toDigits (n := k) (by simpa [e] using hc)
+      have : c ≠ '_' := fun e => Nat.underscore_not_in_toDigits (n := k) (by simp [e] at hc)
       simpa using this) (by simp)]
   rw [List.reverse_reverse, ← Nat.toList_repr, String.ofList_toList]
   exact Nat.toNat?_repr k
